@@ -342,20 +342,40 @@ pub fn sweep_case(mut idx: u64) -> Option<(Program, usize)> {
 /// could hide from AddressSanitizer (in-allocation overreads, pointer
 /// arithmetic without dereference, data races): every unsafe-reaching call
 /// whose vertex arguments leave V or whose base is non-contiguous, and the
-/// CPU-count segment.
-pub fn miri_cases_len() -> u64 {
-    sweep_size()
-}
-
-pub fn miri_case(idx: u64) -> Option<Case> {
-    let (program, cpus) = sweep_case(idx)?;
-    let vs = base_vertices(&program.base);
-    let noncontig = vs.iter().copied().ne(0..vs.len());
-    let outside = program.calls.iter().any(|c| vertex_args(c).iter().any(|v| !vs.contains(v)));
-    let interesting = program.calls.iter().any(reaches_unsafe) && (outside || noncontig || cpus > 0);
-    // huge orders make Miri crawl; the overflow cases are covered natively
-    let heavy = program.calls.iter().any(|c| matches!(c, Call::MatrixBig(..)) || matches!(c, Call::FromArcs(_, a) if a.iter().any(|&(u, v)| u > 64 || v > 64)));
-    (interesting && !heavy).then_some(Case { program, leak: false, cpus: 0 })
+/// CPU-count segment (Miri's -Zmiri-num-cpus sets the count there).
+pub fn miri_cases() -> Vec<Case> {
+    let mut all: Vec<(Program, usize)> = vec![];
+    for b in bases() {
+        for c in base_calls(&b) {
+            all.push((Program { base: b.clone(), calls: vec![c] }, 0));
+        }
+    }
+    for c in static_calls() {
+        all.push((
+            Program {
+                base: Base { repr: 0, order: 1, arcs: vec![], extra_ids: vec![], drop_ids: vec![] },
+                calls: vec![c],
+            },
+            0,
+        ));
+    }
+    all.extend(cpu_segment());
+    all.into_iter()
+        .filter_map(|(program, cpus)| {
+            let vs = base_vertices(&program.base);
+            let noncontig = vs.iter().copied().ne(0..vs.len());
+            let outside = program.calls.iter().any(|c| vertex_args(c).iter().any(|v| !vs.contains(v)));
+            let interesting = program.calls.iter().any(reaches_unsafe) && (outside || noncontig || cpus > 0);
+            // big inputs make Miri crawl; they are covered natively
+            let heavy = program.base.order > 16
+                || program.calls.iter().any(|c| {
+                    matches!(c, Call::MatrixBig(..))
+                        || matches!(c, Call::FromArcs(_, a) if a.iter().any(|&(u, v)| u > 64 || v > 64))
+                        || matches!(c, Call::FromRows(_, r) if r.iter().flatten().any(|&v| v > 64))
+                });
+            (interesting && !heavy).then_some(Case { program, leak: false, cpus: 0 })
+        })
+        .collect()
 }
 
 // ---------------------------------------------------------------------------
